@@ -1,4 +1,5 @@
 import RlibModel.Model.F80
+import RlibModel.Model.F80Exact
 /-! Line-protocol driver for engine `f80` (property C18).  See `harness/e_f80/src/main.rs` for the case syntax. -/
 open Rlib Rlib.F80
 
@@ -47,17 +48,26 @@ def arith (op : String) (a b : F80) : Option F80 :=
   | "/" => some (div a b)
   | _ => none
 
-/-- fold a chain `op Y op Z ...` from `acc`, collecting every intermediate -/
-def chain (acc : F80) : List String → Option (List String)
+/-- the same four operations computed by the specification: exact fraction arithmetic, one rounding -/
+def arithSpec (op : String) (a b : F80) : Option F80 :=
+  match op with
+  | "+" => some (specAdd a b)
+  | "-" => some (specSub a b)
+  | "*" => some (specMul a b)
+  | "/" => some (specDiv a b)
+  | _ => none
+
+/-- fold a chain `op Y op Z ...` from `acc` with the given arithmetic, collecting every intermediate -/
+def chain (ar : String → F80 → F80 → Option F80) (acc : F80) : List String → Option (List String)
   | [] => some []
   | op :: y :: rest =>
     match operand? y with
     | none => none
     | some o =>
-      match arith op acc o.v with
+      match ar op acc o.v with
       | none => none
       | some r =>
-        match chain r rest with
+        match chain ar r rest with
         | none => none
         | some outs => some (show80 r :: outs)
   | _ => none
@@ -65,19 +75,23 @@ def chain (acc : F80) : List String → Option (List String)
 def handle (line : String) : String :=
   match tokens line with
   | ["const"] =>
-    let s := s!"zero={show80 zero} one={show80 one} default={show80 zero}"
-    answer s "zero=00000000000000000000 one=3fff8000000000000000 default=00000000000000000000"
+    -- `cw` = x87 control word read back after `f80_init()` (raw-only diagnostic: 64-bit precision, round to nearest, all masked)
+    let v := s!"zero={show80 zero} one={show80 one} default={show80 zero}"
+    answer3 (v ++ " cw=037f") v "zero=00000000000000000000 one=3fff8000000000000000 default=00000000000000000000"
   | ["ar", x, y] =>
     match operand? x, operand? y with
     | some a, some b =>
       let s := s!"add={show80 (add a.v b.v)} sub={show80 (sub a.v b.v)} mul={show80 (mul a.v b.v)} div={show80 (div a.v b.v)} asg=same"
-      -- the arithmetic model *is* the specification "exact result, rounded once"; operands in encodings that
-      -- no operation produces are outside the property's domain
-      answer s (if a.canonical && b.canonical then s else "any")
+      -- M: the bit-level soft-float model.  S: exact fraction arithmetic on the decoded operands, rounded once by the
+      -- specification rounding function (`Model/F80Exact.lean`); `Props/C18.lean` proves M = S.  Operands in encodings
+      -- that no operation produces are outside the property's domain.
+      let sp := s!"add={show80 (specAdd a.v b.v)} sub={show80 (specSub a.v b.v)} mul={show80 (specMul a.v b.v)} div={show80 (specDiv a.v b.v)} asg=same"
+      answer3 s s (if a.canonical && b.canonical then sp else "any")
     | _, _ => badLine line
   | ["cmp", x, y] =>
     match operand? x, operand? y with
     | some a, some b =>
+      let canonical := a.canonical && b.canonical
       let (a, b) := (a.v, b.v)
       let anyNaN := isNaN a || isNaN b
       let rel := s!"lt={b01 (lt a b)} gt={b01 (gt a b)} le={b01 (le a b)} ge={b01 (ge a b)} eq={b01 (beq a b)} ne={b01 (Rlib.F80.bne a b)} pc={showPc (partialCmp a b)}"
@@ -85,7 +99,7 @@ def handle (line : String) : String :=
       let raw := s!"{rel} min={show80 (Rlib.F80.min a b)} max={show80 (Rlib.F80.max a b)}"
       let view := if anyNaN then s!"{rel} min=* max=*" else s!"{rel} min={canon80 (Rlib.F80.min a b)} max={canon80 (Rlib.F80.max a b)}"
       let spec := if anyNaN then s!"{srel} min=* max=*" else s!"{srel} min={canon80 (specMin a b)} max={canon80 (specMax a b)}"
-      answer3 raw view spec
+      answer3 raw view (if canonical then spec else "any")
     | _, _ => badLine line
   | ["un", x] =>
     match operand? x with
@@ -97,18 +111,21 @@ def handle (line : String) : String :=
       -- rounded value, and for an operand that came from an f64 it is that f64 again
       let s64 := match a.src64 with
         | some x => show64 x
-        | none => show64 (toF64 v)
-      let spec := s!"val={show80 v} neg={show80 { v with sign := !v.sign }} abs={canon80 (specAbs v)} f64={s64}"
+        | none => show64 (specToF64 v)
+      let sval := match a.src64 with
+        | some x => specOfF64 x
+        | none => v
+      let spec := s!"val={show80 sval} neg={show80 { v with sign := !v.sign }} abs={canon80 (specAbs v)} f64={s64}"
       answer3 raw view (if a.canonical then spec else "any")
     | none => badLine line
   | "ch" :: x :: rest =>
     match operand? x with
     | some a =>
-      match chain a.v rest with
-      | some outs =>
+      match chain arith a.v rest, chain arithSpec a.v rest with
+      | some outs, some souts =>
         let s := " ".intercalate outs
-        answer s (if a.canonical then s else "any")
-      | none => badLine line
+        answer3 s s (if a.canonical then " ".intercalate souts else "any")
+      | _, _ => badLine line
     | none => badLine line
   | _ => badLine line
 
